@@ -55,6 +55,7 @@ void eval_check(const V& v, stage_out& so) {
     using U = meta::remove_cvref_t<V>;
     using T = meta::get_element_type_t<U>;
     auto shp = shape_of(v);
+    if (safe_total(shp) == SIZE_MAX) { so.eval_issues.push_back("view reports a huge shape; not evaluated"); return; }
     std::vector<T> ref;
     for (odometer o(shp); !o.done; o.next()) ref.push_back((T)read_elem(v, o.idx));
     if constexpr (meta::is_num_v<U>) {
